@@ -383,18 +383,22 @@ def _(eng, ci, a, sp):
 
 @S('FusedFuture::is_terminated')
 def _(eng, ci, a, sp):
-    v = deref_all(a[0])
-    if isinstance(v, Struct) and v.name == 'Pin':
+    tgt = a[0]
+    v = deref_all(tgt)
+    d = 0
+    while isinstance(v, Struct) and v.name == 'Pin' and d < 6:
         tgt = v.f[0]
         v = deref_all(tgt)
-    else:
-        tgt = a[0]
+        d += 1
     if isinstance(v, Struct):
         nm = eng.impl_index.get((v.name, 'FusedFuture', 'is_terminated'))
         if nm:
             return eng.run_body(eng.body(nm), [tgt if isinstance(tgt, Ref) else new_cell(v)])
         if v.name == 'Fuse':
             return v.f[0].var == 'None'
+        h = eng.summaries.get('<%s as FusedFuture>::is_terminated' % v.name)
+        if h:
+            return h(eng, ci, [tgt if isinstance(tgt, Ref) else new_cell(v)], sp)
     raise Unsupported('is_terminated on %r' % (v,))
 
 
@@ -428,9 +432,19 @@ def _(eng, ci, a, sp):
         return UNIT
     import itertools
     perms = list(itertools.permutations(range(n)))
-    if getattr(eng, 'select_orders', 'all') == 'first':
+    mode = getattr(eng, 'select_orders', 'all')
+    if mode == 'first':
         return UNIT       # quick tier: only the written order (stated in the bounds)
-    k = eng.choose(len(perms), 'select-order')
+    if mode == 'budget':
+        # at most `select_budget` select! evaluations per path use an order other than the written one
+        b = getattr(eng.world, 'select_budget', 0)
+        if b <= 0:
+            return UNIT
+        k = eng.choose(len(perms), 'select-order')
+        if k != 0:
+            eng.world.select_budget = b - 1
+    else:
+        k = eng.choose(len(perms), 'select-order')
     old = list(items)
     for i, j in enumerate(perms[k]):
         items[i] = old[j]
